@@ -105,19 +105,35 @@ pub fn eval(prop: &PropDef, case: &Value) -> Obs {
         obs.count("unsafe_precondition_panics", 1);
       }
       if prop.panic_policy == PanicPolicy::Violation {
-        // one clause per panic site so that different panics are different findings
-        let site = msg
-          .split(" @ ")
-          .nth(1)
-          .unwrap_or("")
-          .split(' ')
+        // one clause per (library function, kind of panic), independent of
+        // line numbers, so that different panics are different findings
+        let frame = msg
+          .rsplit_once(" [")
+          .map(|(_, f)| f.trim_end_matches(']'))
+          .unwrap_or("");
+        let func = frame
+          .split(" at ")
           .next()
           .unwrap_or("")
-          .to_string();
+          .split_once(": ")
+          .map(|(_, f)| f)
+          .unwrap_or(frame)
+          .replace("::{{closure}}", "")
+          .replace(' ', "");
+        let kind: String = msg
+          .split(" @ ")
+          .next()
+          .unwrap_or("")
+          .chars()
+          .map(|c| if c.is_ascii_digit() { '#' } else if c == ' ' { '_' } else { c })
+          .filter(|c| c.is_ascii_alphanumeric() || "_#:()`".contains(*c))
+          .take(60)
+          .collect();
+        let site = format!("{func}:{kind}");
         if unsafe_pre {
           obs.fail("unsafe_precondition", msg);
         } else {
-          obs.fail(&format!("panic@{site}"), msg);
+          obs.fail(&format!("panic:{site}"), msg);
         }
       }
     }
@@ -261,6 +277,13 @@ pub fn run_worker(args: &[String]) -> i32 {
     .filter(|k| k.property == prop.id)
     .collect();
   install_panic_hook();
+  let progress = a.get("progress").cloned();
+  let skip: BTreeSet<usize> = a
+    .get("skip")
+    .map(|s| s.split(',').filter_map(|x| x.parse().ok()).collect())
+    .unwrap_or_default();
+  let only: Option<usize> = a.get("only").and_then(|s| s.parse().ok());
+  let dump = a.get("dump").cloned();
 
   let my_cases = (total as u64 / nshards
     + if shard < total as u64 % nshards { 1 } else { 0 }) as usize;
@@ -282,6 +305,12 @@ pub fn run_worker(args: &[String]) -> i32 {
   let mut exhaustive_cases = 0usize;
 
   for idx in 0..my_cases {
+    if skip.contains(&idx) || only.is_some_and(|o| o != idx) {
+      continue;
+    }
+    if let Some(p) = &progress {
+      let _ = std::fs::write(p, idx.to_string());
+    }
     if t0.elapsed().as_secs_f64() > budget {
       early_stop = true;
       break;
@@ -307,6 +336,18 @@ pub fn run_worker(args: &[String]) -> i32 {
     let mut case = case;
     if case.is_object() {
       case["property"] = json!(prop.id);
+    }
+    if let Some(d) = &dump {
+      // write the case as a replay document without evaluating it
+      let doc = json!({
+        "property": prop.id,
+        "clause": "crash",
+        "detail": "the worker process died while evaluating this case",
+        "seed": seed, "shard": shard, "case_index": idx,
+        "case": case,
+      });
+      let _ = std::fs::write(d, serde_json::to_string_pretty(&doc).unwrap());
+      return 0;
     }
     let obs = eval(&prop, &case);
     cases_run += 1;
